@@ -108,6 +108,11 @@ class FitProperties(dict):
         elif key not in FP_RESULTS:
             msg = "Key '{}' not in FP_DEFAULT".format(key)
             raise FitKeyError(msg)
+        if key in FP_DEFAULT:
+            # Settings are stored by value. Otherwise, in-place changes of
+            # an object that was passed before (parameters, lists, dicts)
+            # would be compared to themselves and never be noticed.
+            value = copy.deepcopy(value)
         super(FitProperties, self).__setitem__(key, value)
 
     def reset(self):
